@@ -168,3 +168,69 @@ class Only:
 
     def broke(self, t):
         self.chk.broke(t)
+
+
+BLOCK_READERS = {"Memory::compare": (0, 1, 2), "Memory::copy": (1, None, 2), "Memory::move": (1, None, 2), "memcmp": (0, 1, 2), "memcpy": (1, None, 2),
+                 "memmove": (1, None, 2), "memchr": (0, None, 2), "bcmp": (0, 1, 2), "Memory::find": (0, None, 2)}
+
+
+def block_reads_on_cursor(prog, chk, rid, priv, fileend, floor_args=3):
+    """The document is one NUL-terminated text: the tokenizer may look at a byte only after it has seen every byte before it to be
+    non-zero.  Readers that stop at the terminator (String::compare(a, b, n) is strncmp, strchr, strpbrk ...) may be handed the cursor;
+    a block reader (memcmp/memcpy and their Memory:: wrappers) looks at all n bytes and must be covered by bytes already scanned."""
+    from .. import q as _q, fin as _fin
+    from ..facts import AnalysisBroken
+    chk.rule(rid, "CUR/WHO: in the tokenizer a block reader (memcmp/memcpy/Memory::compare/copy...) is applied to the cursor only for a length "
+                  "that lies between two scanned cursor positions, or for no more bytes than are known non-zero at the cursor", floor=0)
+    fs = [f for f in prog.functions.values() if f.gname.startswith(priv + "::") and f.file.endswith(fileend) and f.blocks]
+    seen_cursor_args = 0
+    n_block = 0
+    for f in fs:
+        defs = _q.local_defs(f)
+        # cursor family: this->pos.pos and the pointer locals whose definitions are built from it
+        fam = set()
+        for _r in range(3):
+            for did, dl in defs.items():
+                for kind, nd, init in dl:
+                    if init is None or did in fam:
+                        continue
+                    t = _q.no_casts(f.r(init))
+                    if "pos.pos" in t or any(f.nodes[x]["k"] == "DeclRefExpr" and f.nodes[x]["ref"].get("id") in fam for x in [f.strip(init)] + list(f.desc(init))):
+                        if "*" in (next((d_["t"] for n_ in f.nodes if n_["k"] == "DeclStmt" for d_ in n_["decls"] if d_["id"] == did), "") or ""):
+                            fam.add(did)
+
+        def on_cursor(a):
+            return any((f.nodes[x]["k"] == "MemberExpr" and f.nodes[x].get("m") == "pos" and "pos.pos" in _q.no_casts(f.r(x))) or
+                       (f.nodes[x]["k"] == "DeclRefExpr" and f.nodes[x]["ref"].get("id") in fam) for x in [f.strip(a)] + list(f.desc(a)))
+        for c in _q.calls(f):
+            callee = f.nodes[c].get("callee") or ""
+            args = _q.call_args(f, c)
+            cur_args = [k for k, a in enumerate(args) if on_cursor(a) and "*" in (f.nodes[f.strip(a)].get("t") or "")]
+            if cur_args:
+                seen_cursor_args += 1
+            spec = BLOCK_READERS.get(callee)
+            if spec is None or not cur_args:
+                continue
+            srcs = [k for k in spec[:2] if k is not None and k in cur_args]
+            if not srcs or len(args) <= spec[2]:
+                continue
+            n_block += 1
+            ln = args[spec[2]]
+            v = _fin.eval_expr(f, ln, {})
+            # bytes known non-zero at the cursor: the byte under it, when a dominating test / case label says so
+            atoms = _fin.dominating_atoms(f, f.node_pos(c))
+            known = 1 if any((a[0] == "case" and a[2] not in (0, None) and re.search(r"^\*", _q.no_casts(_fin.key(f, a[1])))) or
+                             (a[0] != "case" and a[1] and re.search(r"^\*", _q.no_casts(_fin.key(f, a[0])))) for a in atoms) else 0
+            lnode = f.nodes[f.strip(ln)]
+            between = lnode["k"] == "BinaryOperator" and lnode.get("op") == "-" and all(on_cursor(x) for x in lnode["c"])
+            if between or (isinstance(v, int) and v <= known):
+                chk.ok(rid, f, "%s over scanned bytes" % callee, f.where(c), _q.no_casts(f.r(c))[:60], evals=2)
+            else:
+                chk.bad(rid, f, "block-read-beyond-scanned-bytes:" + callee, f.where(c),
+                        "`%s` reads %s bytes at the cursor although only %d byte(s) there are known to be non-zero: on a document that ends "
+                        "inside this token it reads past the terminator (String::compare(a, b, n) stops at it)" % (
+                            _q.no_casts(f.r(c))[:70], v if v is not None else "an unchecked number of", known), evals=2)
+    if seen_cursor_args < floor_args:
+        raise AnalysisBroken("%s: only %d calls take the cursor (expected at least %d): the cursor family was not recognised" % (priv, seen_cursor_args, floor_args))
+    if not n_block:
+        chk.ok(rid, priv, "no block reader is applied to the cursor (%d calls that take the cursor inspected)" % seen_cursor_args, "", "callee table", nontrivial=False)
